@@ -61,8 +61,90 @@ func runC03(c *Ctx) {
 			esc = fd
 		}
 	}
+	// … or the escaper is a strings.Replacer built from constants and applied with Replace: its table is read off the
+	// argument list (a single-rune key covers that rune; longer keys cover no single rune)
+	var replacerVar types.Object
+	replacerCovered := map[rune]string{}
 	if esc == nil {
+		for _, nm := range rp.Types.Scope().Names() {
+			v, ok := rp.Types.Scope().Lookup(nm).(*types.Var)
+			if !ok {
+				continue
+			}
+			call, ok := ast.Unparen(pkgVarInit(rp, nm)).(*ast.CallExpr)
+			if !ok || pkgVarInit(rp, nm) == nil {
+				continue
+			}
+			if fn := calleeOf(rinfo, call); fn == nil || fullName(fn) != "strings.NewReplacer" || len(call.Args)%2 != 0 || call.Ellipsis.IsValid() {
+				continue
+			}
+			allConst := true
+			cov := map[rune]string{}
+			for i := 0; i+1 < len(call.Args); i += 2 {
+				k, ok1 := constString(rinfo, call.Args[i])
+				val, ok2 := constString(rinfo, call.Args[i+1])
+				if !ok1 || !ok2 {
+					allConst = false
+					break
+				}
+				if rs := []rune(k); len(rs) == 1 {
+					if _, dup := cov[rs[0]]; !dup {
+						cov[rs[0]] = val
+					}
+				}
+			}
+			used := false
+			for _, fd := range allFuncDecls(rp) {
+				ast.Inspect(fd.Body, func(n ast.Node) bool {
+					if c2, ok := n.(*ast.CallExpr); ok {
+						if se, ok := ast.Unparen(c2.Fun).(*ast.SelectorExpr); ok && se.Sel.Name == "Replace" {
+							if id, ok := ast.Unparen(se.X).(*ast.Ident); ok && rinfo.ObjectOf(id) == types.Object(v) {
+								used = true
+							}
+						}
+					}
+					return true
+				})
+			}
+			if allConst && used {
+				replacerVar, replacerCovered = v, cov
+			}
+		}
+	}
+	if esc == nil && replacerVar == nil {
 		c.viol("C03.R1", "anchor-lost:js-string-escaper", "", "no rune-wise escaper (utf8.DecodeRuneInString over a replacement table) found in package runtime")
+	} else if esc == nil {
+		keyBase := rp.PkgPath + "." + replacerVar.Name()
+		var required []rune
+		for r := rune(0); r <= 0x1f; r++ {
+			required = append(required, r)
+		}
+		required = append(required, '"', '\'', '`', '\\', '<', '>', '&', '$', '/', 0x2028, 0x2029)
+		short := map[string]rune{`\t`: '\t', `\n`: '\n', `\f`: '\f', `\r`: '\r', `\\`: '\\', `\/`: '/', `\b`: '\b', `\v`: '\v'}
+		for _, r := range required {
+			key := fmt.Sprintf("%s|js-escape:U+%04X", keyBase, r)
+			repl, has := replacerCovered[r]
+			if !has {
+				c.viol("C03.R1", key, c.pos(replacerVar.Pos()), fmt.Sprintf("no replacement for %q (U+%04X) in the replacer %s: no key of its argument list is that single character — the character reaches the JavaScript string literal verbatim", string(r), r, replacerVar.Name()))
+				continue
+			}
+			good := false
+			if cp, ok := short[repl]; ok && cp == r {
+				good = true
+			}
+			if strings.HasPrefix(repl, `\u`) && len(repl) == 6 {
+				if v, err := strconv.ParseUint(repl[2:], 16, 32); err == nil && rune(v) == r {
+					good = true
+				}
+			}
+			if _, isShort := short[repl]; !isShort && strings.ContainsRune(repl, r) {
+				good = false
+			}
+			c.check(good, "C03.R1", key, c.pos(replacerVar.Pos()), fmt.Sprintf("%q → %s", string(r), repl),
+				fmt.Sprintf("the replacement %q for U+%04X is not an escape of that same code point", repl, r))
+		}
+		c.count("js_escape_table_entries", len(replacerCovered))
+		c.control("C03.R1:evaluator-sees-unescaped-runes", func() bool { _, has := replacerCovered['a']; return !has }())
 	} else {
 		covered := map[rune]string{}
 		var tables []string
@@ -764,7 +846,7 @@ func runC03(c *Ctx) {
 	// The two entry points the generator emits: what each returns is found by following their returns through
 	// package-local callees with the constant arguments they pass (path conditions evaluated on those constants), so
 	// the selection may be a bool, an enum, two separate functions …
-	if esc == nil {
+	if esc == nil && replacerVar == nil {
 		c.viol("C03.R5", "anchor-lost:script-content-selector", "", "the in-literal escaper was not found, so the routing into it cannot be decided")
 	} else {
 		for _, ent := range []struct {
@@ -790,8 +872,13 @@ func runC03(c *Ctx) {
 				}
 				viaEsc, viaJSON := false, false
 				if call, ok := e.(*ast.CallExpr); ok {
-					if fn := calleeOf(rinfo, call); fn != nil && types.Object(fn) == rinfo.Defs[esc.Name] {
+					if fn := calleeOf(rinfo, call); fn != nil && esc != nil && types.Object(fn) == rinfo.Defs[esc.Name] {
 						viaEsc = true
+					}
+					if se, ok := ast.Unparen(call.Fun).(*ast.SelectorExpr); ok && replacerVar != nil && se.Sel.Name == "Replace" {
+						if id, ok := ast.Unparen(se.X).(*ast.Ident); ok && rinfo.ObjectOf(id) == replacerVar {
+							viaEsc = true
+						}
 					}
 				}
 				// string(<json.Marshal result>)
